@@ -208,6 +208,22 @@ def mode_rules(facts, rep):
                 bad += 1
             if not has_mode:
                 bad += 1        # the recorded mode is not even consulted after writing a file
+        # ... and so does every extracted DIRECTORY entry (a `continue` after create_dir_all skips the chmod: recorded 0700 comes out 0755)
+        ndir = dbad = 0
+        for p in ps:
+            if outcome(p)[0] != "Ok":
+                continue
+            mk = [pos for e_, pos in zip(p["effects"], p["epos"]) if re.search(r"^std::fs::create_dir_all$", e_[1])]
+            cp = [pos for e_, pos in zip(p["effects"], p["epos"]) if re.search(r"^std::io::copy$|^std::fs::File::create$", e_[1])]
+            if not mk or cp:
+                continue        # not a pure directory iteration
+            ndir += 1
+            has_mode = [v for (a, v), pos in zip(p["decisions"], p["dpos"]) if a != "#iter" and re.search(r"^discr\(ZipFile::unix_mode\(", a) and pos > mk[0]]
+            sp = [pos for e_, pos in zip(p["effects"], p["epos"]) if re.search(r"^std::fs::set_permissions$", e_[1]) and pos > mk[0]]
+            if not has_mode or (has_mode == [1] and len(sp) != 1):
+                dbad += 1
+        ok &= rep.check(ndir >= 1 and dbad == 0, rule, "dir-gets-mode", where(f, f.span), "after a directory entry is created, unix_mode() is consulted and Some(mode) => set_permissions",
+                        "%d of %d directory-extracting paths do not apply the entry's recorded Unix mode" % (dbad, ndir))
         ok &= rep.check(nfile >= 1 and bad == 0, rule, "file-gets-mode", where(f, f.span), "after a file's content is written, unix_mode() is consulted and Some(mode) => set_permissions",
                         "%d of %d file-extracting paths do not apply the entry's recorded Unix mode with set_permissions after writing" % (bad, nfile))
     # the streaming extractor applies modes in its second phase (central directory): every entry whose metadata is delivered has its
